@@ -86,6 +86,8 @@ func main() {
 	runDecoderFailureHistories()
 	runSpecialParity()
 	runSyndromeKernelErrors()
+	runLookalikeSyndromes()
+	runCosetErrors()
 	runRegisterStates()
 	chk.Finish()
 }
